@@ -371,6 +371,11 @@ def _corrupt(prop):
 
 def check(ctx, prop: str | None = None):
     prop = prop or ctx.prop
+    # the design: the run invariants hold whatever opaque models write into the buckets, or if they raise
+    ctx.model_check("MC_Pipeline", f"MC_Pipeline_opaque_{ctx.tier}.cfg",
+                    required_actions=["BeginStep", "EndStep", "Finish", "MCOpaqueRun", "MCOpaqueRaise"],
+                    note="models of unknown effect (any content in pixel / charge / image, or a failure) x steps x mode: "
+                         "C01 C02 C03 C09 invariants")
     data = gather(ctx.tier)
     traces = data["traces"]
     ctx.notes["hook_traces"] = {k: v for k, v in data["stats"].items() if k != "examples"}
